@@ -127,11 +127,11 @@ def run(ctx):
     corpus = [
         ("public_expire_votes", 0, "0988205", "EXPIRE_VOTES from an unrelated account expired a proposal in its funding stage before any deadline",
          notes.get("e11_deliver_ok") or notes.get("e11_moved_to_failed") or notes.get("e11_checktx_code") == 0),
-        ("stale_fund_records", 1, "d859128", "funder records survived a finalisation / a finalised proposal accepted a withdrawal / id in two stores",
+        ("stale_fund_records", 1, "9dda72d", "funder records survived a finalisation / a finalised proposal accepted a withdrawal / id in two stores",
          notes.get("stale_survivors", 0) != 0 or notes.get("stale_zero_withdraw_ok") or notes.get("stale_two_stores")),
-        ("negative_fund_amount", 2, "65cdcf3", "a negative contribution or withdrawal was accepted / the refund after the cancellation was refused",
+        ("negative_fund_amount", 2, "782c385", "a negative contribution or withdrawal was accepted / the refund after the cancellation was refused",
          notes.get("negfund_deliver_ok") or notes.get("negfund_checktx_code") == 0 or notes.get("negwithdraw_ok") or notes.get("negfund_refund_ok") is False),
-        ("pass_percentage_drift", 3, "c39c303", "a proposal whose votes pass under its own percentage was recorded as failed / ended up in two stores",
+        ("pass_percentage_drift", 3, "23f7d29", "a proposal whose votes pass under its own percentage was recorded as failed / ended up in two stores",
          notes.get("drift_p1_outcome_yes") is False or notes.get("drift_p1_two_stores") or notes.get("drift_applied") != 1),
     ]
     for name, ci, commit, what, bad in corpus:
